@@ -256,17 +256,22 @@ Lemma bad_handle_alloc_l : forall h t r c f, h <> HOk ->
 Proof. intros. destruct h; try congruence; reflexivity. Qed.
 
 (* the scalar setters *)
+Ltac setter_tac :=
+  crun_lazy; unfold check_set_pvalue, check_set_p_tolerance, check_set_et_tolerance, check_set_pvalue_with, check_set_tolerance_with,
+    gen_pvalue_refuses_nan, gen_p_tolerance_refuses_nan, gen_et_tolerance_refuses_nan, dnan, dle, dgt, dlt, d0, d1, usage1;
+  rewrite ?Qeq_bool_refl; cbn [negb orb andb]; bools.
+
 Lemma set_pvalue_contract_l : forall x,
   crun (env_dbl HOk "significance" x) gen_contract_vnacal_new_set_pvalue_limit = lift (check_set_pvalue x).
-Proof. intros [q|]; crun_lazy; unfold check_set_pvalue, dle, dgt, dlt, d0, d1, usage1; bools. Qed.
+Proof. intros [q|]; setter_tac. Qed.
 
 Lemma set_p_tolerance_contract_l : forall x,
-  crun (env_dbl HOk "tolerance" x) gen_contract_vnacal_new_set_p_tolerance = lift (check_set_tolerance x).
-Proof. intros [q|]; crun_lazy; unfold check_set_tolerance, dlt, d0, usage1; bools. Qed.
+  crun (env_dbl HOk "tolerance" x) gen_contract_vnacal_new_set_p_tolerance = lift (check_set_p_tolerance x).
+Proof. intros [q|]; setter_tac. Qed.
 
 Lemma set_et_tolerance_contract_l : forall x,
-  crun (env_dbl HOk "tolerance" x) gen_contract_vnacal_new_set_et_tolerance = lift (check_set_tolerance x).
-Proof. intros [q|]; crun_lazy; unfold check_set_tolerance, dlt, d0, usage1; bools. Qed.
+  crun (env_dbl HOk "tolerance" x) gen_contract_vnacal_new_set_et_tolerance = lift (check_set_et_tolerance x).
+Proof. intros [q|]; setter_tac. Qed.
 
 Lemma set_iteration_contract_l : forall n,
   crun (env_int HOk "iterations" n) gen_contract_vnacal_new_set_iteration_limit = lift (check_set_iteration n).
@@ -323,11 +328,19 @@ Proof. intros [| |] hn other solved H; try congruence; reflexivity. Qed.
 
 (* vnacal_set_fprecision / vnacal_set_dprecision *)
 Lemma precision_contract_l : forall p,
-  crun (env_precision p) gen_contract_vnacal_set_fprecision =
+  crun (env_precision HOk p) gen_contract_vnacal_set_fprecision =
     (if (1 <=? p) && (p <=? gen_max_precision) then CPass else CRefused VM1 (Via USAGE)) /\
-  crun (env_precision p) gen_contract_vnacal_set_dprecision =
+  crun (env_precision HOk p) gen_contract_vnacal_set_dprecision =
     (if (1 <=? p) && (p <=? gen_max_precision) then CPass else CRefused VM1 (Via USAGE)).
 Proof. intros p. unfold gen_max_precision. split; crun_lazy; batoms. Qed.
+
+Lemma precision_bad_handle_l : forall h p c,
+  h <> HOk -> In c [gen_contract_vnacal_set_fprecision; gen_contract_vnacal_set_dprecision] ->
+  has_handle_test c = true -> crun (env_precision h p) c = CRefused VM1 (Direct E_INVAL).
+Proof.
+  intros h p c Hh [Hc|[Hc|[]]] Ht; subst c;
+    first [ vm_compute in Ht; discriminate Ht | destruct h; [reflexivity|reflexivity|congruence] ].
+Qed.
 
 (* the calibration table: _vnacal_get_calibration, the getters, the ci argument of vnacal_property_* *)
 Definition getter_contracts : list (list cstep * fval * bool) :=
@@ -425,7 +438,7 @@ Proof.
   all: revert E; destruct s as [[t rw cl fr fvd me pa] pt et it pv];
     destruct c as [h fv rb|h|h a|h x|h x|h n|h x|h fails]; destruct h;
     try (destruct x as [q|]); try (destruct a as [n fv nf tr narrow s16]; destruct nf, tr, fv);
-    srun_lazy; rewrite ?Z.gtb_ltb; ifs_eqn; intro E; inversion E; subst; try exact Hinv;
+    srun_lazy; rewrite ?Z.gtb_ltb, ?Qeq_bool_refl; cbn [negb orb andb]; ifs_eqn; intro E; inversion E; subst; try exact Hinv;
     unfold n2_inv, dle, dgt, dlt, d0, d1 in *; simpl in *;
     repeat match goal with H : _ /\ _ |- _ => destruct H end;
     repeat split; try assumption; try reflexivity; try lia; try congruence; try tauto;
@@ -511,3 +524,62 @@ Example contract_report_satisfiable :
   crun (env_apply HOk [None; Some (mkcal 8 2 1 3)] (mkapp 1 false 2 false false false false 2 2 false (Some (2, 2)) false false))
        gen_contract_vnacal_apply_common = CRefused VM1 (Via USAGE).
 Proof. vm_compute. repeat split; try reflexivity; auto 40. Qed.
+
+(* ------------------------------------------------------------------ _vnacal_new_add_common *)
+Lemma scan_code_map : forall P l seen mx idx,
+  scan_map P l seen mx = match scan_code P l seen mx idx with Some _ => true | None => false end.
+Proof.
+  intros P l. induction l as [|p r IH]; intros seen mx idx; simpl; [reflexivity|].
+  destruct (p <? 1); [reflexivity|]. destruct (Z.max mx p >? P); [reflexivity|].
+  destruct (existsb (Z.eqb p) seen); [reflexivity|]. apply IH.
+Qed.
+
+Definition add_step_ok (s : cstep) : bool :=
+  match s with
+  | SReport _ USAGE VM1 | SReport _ MATH VM1 => true
+  | _ => false
+  end.
+
+Lemma crun_k_reports : forall c e k v r,
+  forallb add_step_ok c = true -> crun_k e k c = CRefused v r -> v = VM1 /\ (r = Via USAGE \/ r = Via MATH).
+Proof.
+  intros c e. induction c as [|s c IH]; intros k v r Hc H; simpl in *; [discriminate|].
+  apply andb_true_iff in Hc. destruct Hc as [Hs Hc].
+  destruct k as [|k]; [|eapply IH; eauto].
+  destruct s; simpl in Hs; try discriminate.
+  destruct (ceval e c0); [|eapply IH; eauto].
+  inversion H; subst. destruct cat; try discriminate; destruct v; try discriminate; split; auto.
+Qed.
+
+(* facts: every step of the generated validation is a reported refusal with -1 (VNAERR_USAGE; VNAERR_MATH for the
+   singular 'a' matrix): nothing is written in between as far as the translator follows the function (up to the
+   first allocation; the two later tests are made on the not yet linked measurement); the type switch lists the
+   eight types a vnacal_new_t can have *)
+Lemma add_common_as_found_l :
+  forallb add_step_ok gen_contract_vnacal_new_add_common = true /\
+  forallb (fun t => match add_type_row t with Some _ => true | None => false end) [0; 1; 2; 3; 4; 5; 6; 7] = true /\
+  (gen_add_common_prefix <= List.length gen_contract_vnacal_new_add_common)%nat.
+Proof. vm_compute. repeat split; try reflexivity. repeat constructor. Qed.
+
+Lemma add_common_refusal_classified_l : forall e v r,
+  crun e gen_contract_vnacal_new_add_common = CRefused v r -> v = VM1 /\ (r = Via USAGE \/ r = Via MATH).
+Proof. intros e v r H. eapply crun_k_reports; [exact (proj1 add_common_as_found_l)|exact H]. Qed.
+
+(* the generated validation against check_add of NewModel.v on concrete standards (the general equality is
+   compared on generated tuples by the check, not proved) *)
+Example add_common_contract_examples :
+  let s := mknsum 4 2 2 3 true true (mknew [] 0 0 0 None) in
+  let ok := ChEnd 1 true false 0%Q None in
+  let rows := [mkadd false None 2 2 2 2 (Some [1; 2]) [ok; ok; ok; ok] false false;
+               mkadd false None 2 2 1 1 (Some [2]) [ok] false true;
+               mkadd false None 2 2 2 2 (Some [1; 1]) [ok; ok; ok; ok] false false;
+               mkadd false None 2 2 2 2 (Some [1; 3]) [ok; ok; ok; ok] false false;
+               mkadd false (Some (2, 2)) 2 2 2 2 None [ok; ok; ok; ok] true false;
+               mkadd false None 2 2 2 2 None [ok; ChNone 99; ok; ok] false false;
+               mkadd true None 2 2 2 2 None [ok; ok; ok; ok] false false;
+               mkadd false None 3 2 2 2 None [ok; ok; ok; ok] false false] in
+  map (fun a => crun (env_add s a) gen_contract_vnacal_new_add_common) rows = map (fun a => lift (check_add s a)) rows /\
+  map (fun a => crun (env_add s a) gen_contract_vnacal_new_add_common) rows =
+    [CPass; CRefused VM1 (Via USAGE); CRefused VM1 (Via USAGE); CRefused VM1 (Via USAGE); CRefused VM1 (Via MATH);
+     CRefused VM1 (Via USAGE); CRefused VM1 (Via USAGE); CRefused VM1 (Via USAGE)].
+Proof. vm_compute. split; reflexivity. Qed.
